@@ -28,6 +28,13 @@ CLAIMED = {
    text="Exhaustive TLC exploration of the client handshake model against a raw server alphabet (all seven states incl. regressions, id variants, option/confirmation/scheme variants, round-trip data, data, garbage, disconnect) to a depth bound; every maximal behaviour is replayed on the real ClientChannel over the real TCP transport and its history checked by TLC against the same operators.", ref="DESIGN.md 3.1, 5 (C08)",
    note="Assumes selector/authenticator callbacks return normally; TLC result holds inside MaxIn and the raw-server alphabet of HsClient.tla; a panic on a library goroutine is observed as the death of the replaying child process; trusted: TLC, CommunityModules Json, Go runtime, crypto/tls, encoding/json."),
 }
+TCP_NOTE = ("TLC result holds inside the constants of TcpStreamMC.tla (unit 32 bytes, envelope sizes, read limits of 3 units +-1 byte, fault budgets, fragmentation points per read); "
+            "every generated plan is executed on the real tcpTransport over scripted connections that log every Read/Write call; cleartext only so far (TLS layer on top of the scripted connection is planned); "
+            "trusted: TLC, CommunityModules Json, Go runtime, encoding/json.")
+CLAIMED["C12"] = dict(engine="tcp-stream", tech="TLA+ model TcpStream.tla (write/read loops of ctxConn, decoder read-ahead) checked by TLC over all fault plans; every plan replayed on the real TCP transport over scripted net.Conn; TLC monitor TcpObs (C12_StreamIntegrity, C12_NoSilentLoss, C12_WireClean)",
+   text="TLC enumerates every split of the stream into reads, coalescing, short write of every unit length with temporary timeout or hard error, (n>0,timeout)/(n>0,EOF) reads, stalls and cuts for small streams; each plan is executed on the real transport and the recorded Send/Receive results and accepted byte ranges are checked by TLC against the same operators.", ref="DESIGN.md 3.4, 5 (C12)", note=TCP_NOTE)
+CLAIMED["C16"] = dict(engine="tcp-stream", tech="TLA+ model TcpStream.tla (LimitedReader budget re-arm, decoder read-ahead, terminator accounting) checked by TLC; every size/fragmentation plan replayed on the real transport with ReadLimit set; TLC monitor TcpObs (C16_PerReceiveBudget, C16_RejectHuge, C16_AcceptSmall)",
+   text="All envelope sizes around the limit (below, at +-1 byte, between one and two limits, two limits, above) at first and later stream positions under every fragmentation inside the bounds; bytes consumed per Receive are measured at the scripted connection.", ref="DESIGN.md 3.4, 5 (C16)", note=TCP_NOTE)
 CLAIMED["C06"]["engine"] = "hs-server+hs-client"
 CLAIMED["C06"]["note"] = HS_NOTE + " Both roles: server role on HsServer behaviours, client role on HsClient behaviours."
 CLAIMED["C06"]["tech"] += " and HsClient.tla + C06_ClientSendGuard for the client role"
@@ -61,6 +68,9 @@ m = {
            "baseline_off_cmd": "cd /repo && GOFLAGS=-mod=mod GOPROXY=off GOSUMDB=off GOTOOLCHAIN=local go test -json -vet=off -count=1 -timeout 25m ./...",
            "source_commits": hook_commits, "add_only": True},
  "engines": [
+   {"name": "tcp-stream", "path": "spec/TcpStream.tla spec/TcpStreamMC.tla spec/TcpProps.tla spec/TcpObs.tla harness/tcps tools/engines/tcp_stream.py",
+    "serves_properties": ["C12", "C16"],
+    "kind_free_text": "TLA+ model of the TCP byte path + TLC exhaustive check and plan generation, replay on the real tcpTransport over scripted connections, TLC trace monitor"},
    {"name": "hs-client", "path": "spec/HsClient.tla spec/HsClientMC.tla spec/HsProps.tla spec/HsObs.tla harness/hs/client.go tools/engines/hs_client.py",
     "serves_properties": ["C08", "C06", "C09"],
     "kind_free_text": "TLA+ model + TLC exhaustive check and behaviour generation, replay on the real ClientChannel in crash-isolating child processes, TLC trace monitor"},
